@@ -47,7 +47,7 @@ FailsTask(r) ==
         defs == FlattenDefs(task)
         D == Dim(task)
     IN  Unless(r.dim = D /\ r.nflat = D, "C14.dim")
-        \cup Unless(~r.bounds_raised /\ Len(r.lbs) = D /\ Len(r.ubs) = D /\
+        \cup Unless(~r.bounds_raised /\ r.bounds_eq_own /\ Len(r.lbs) = D /\ Len(r.ubs) = D /\
                     \A k \in 1..D : defs[k].t = "perm" \/ (BoundsOKCoord(defs[k], r.lbs[k], r.ubs[k]) /\ r.lbs[k] <= r.ubs[k]), "C14.bounds")
         \cup Unless(r.empty_len = D /\ r.empty_in, "C14.random")
         \cup Unless((r.pat = "nan" /\ r.correct_raised) \/
